@@ -63,6 +63,8 @@ func fieldOfSrc(src string) (string, string) {
 }
 
 func runC05(w *World, r *Report) {
+	r.Rule("reject", "every error exit of a decoder is behind a short input, a failed child or an unknown code, or is a reviewed rejection by value (spec/rejections.json)", 20)
+	rejectRule(w, r, "reject", func(pkg string) bool { return pkg == "openflow13" || pkg == "common" })
 	r.Rule("selfdecode", "a dispatcher returns only values its own decoder filled from the input", 20)
 	selfDecodeRule(w, r, "selfdecode")
 	r.Rule("oxmcodes", "every class/field number a match-field constructor stores has a decoding case in the match-field dispatcher", 30)
@@ -1479,6 +1481,26 @@ func selfDecodeRule(w *World, r *Report, rule string) {
 				}
 			case MaybeV:
 				check(v.V, rt.Pos)
+			}
+		}
+	}
+}
+
+func init() {
+	extraDumps["errexits"] = func(w *World, args []string) {
+		for _, key := range w.sortedFuncKeys() {
+			fi := w.Funcs[key]
+			if fi.Decl.Body == nil || fi.Decl.Name.Name != "UnmarshalBinary" && !strings.HasPrefix(fi.Decl.Name.Name, "Decode") && fi.Decl.Name.Name != "Parse" {
+				continue
+			}
+			fs := w.Interpret(fi, "decode")
+			if fs == nil {
+				continue
+			}
+			for _, rt := range fs.Rets {
+				if rt.IsErr {
+					fmt.Printf("%-50s %s [%s]\n", key, w.Pos(rt.Pos), rt.Guard)
+				}
 			}
 		}
 	}
